@@ -16,10 +16,11 @@ CHECKS = {
     # id: (category, text, note, technique, design_ref)
     "C01": ("other", MIX + "SAFE (no exception at any indexing/int/chr/assert site) and DEC (termination) obligations under the line-table invariant WF for StateBlock.__init__, getLines and the scanning helpers, the seven leaf block rules, "
             "blockquote, list_block and its marker scanners, ParserBlock.tokenize, ParserInline.tokenize/skipToken, escape, newline, backtick, scanDelims, the emphasis/strikethrough tokenizers, processDelimiters "
-            "(incl. no negative index), both _postProcess rules, fragments_join, parseLinkTitle, text_join; no-exception/no-hang monitor over the wrapped line universe x 9-12 configurations and run-time evaluation of the contracts' preconditions at every real call.", TB, DED + "; bounded no-exception monitor", "4 C01"),
+            "(incl. no negative index), both _postProcess rules, fragments_join, parseLinkTitle/Destination/Label, text_join, text, link, image, autolink, table, reference, and - with a structural model of their anchored regular expressions - entity, html_inline and replaceEntityPattern "
+            "(int()/chr()/lookup safety, the match never crosses posMax); every function additionally proves a frame condition at exit (FRAME/exit: what it wrote and its modifies clause does not name is restored); no-exception/no-hang monitor over the wrapped line universe x 9-12 configurations and run-time evaluation of the contracts' preconditions at every real call.", TB, DED + "; bounded no-exception monitor", "4 C01"),
     "C02": ("other", MIX + "Balanced/levelled/flagged token postconditions of the seven leaf block rules, blockquote and list_block (push inlined) discharged; the delimiter pipeline is verified function by function: tokenizers establish the delimiter-list invariant, "
             "processDelimiters yields forward-pointing, same-marker, injective, never-crossing pairs, emphasis/strikethrough _postProcess retag exactly matched pairs consistently and never move structure, fragments_join makes every level the depth and merges adjacent text, "
-            "text_join removes every text_special at any image depth; full stream contract monitored on parse/parseInline.", TB, DED + "; bounded stream monitor", "4 C02"),
+            "text_join removes every text_special at any image depth; link/image/autolink/entity/html_inline token posts; full stream contract monitored on parse/parseInline (incl. a nested-tag delimiter universe: autolinks inside link labels).", TB, DED + "; bounded stream monitor", "4 C02"),
     "C03": ("other", MIX + "map == [startLine, line'], non-empty, non-blank start/end postconditions of the leaf rules, blockquote and list_block (progress within lineMax, end-line patches in range) and skipEmptyLines discharged; whole map contract monitored on parse output.", TB, DED + "; bounded map monitor", "4 C03"),
     "C04": ("other", MIX + "html_block succeeds only under a truthy options.html (POST); LANG obligations for escapeHtml and the renderer functions; strikethrough._postProcess never moves or alters a structural token present at entry (keeps </s> inside its element); output language monitor (Safe, nested) over line, inline and delimiter universes with html off.", TB, DED + "; bounded output-language monitor", "4 C04"),
     "C06": ("other", MIX + "The quote-form mechanism is proved: rules_block.blockquote verified on all paths (212 obligations): per quoted line the tables move past the marker and its optional blank with the physical-column "
@@ -29,11 +30,13 @@ CHECKS = {
     "C08": ("other", MIX + "markup == scanned marker run with its count, info == src slice, content == getLines of exactly the token's lines (hr, heading, lheading, fence, code, html_block) discharged for all inputs; "
             "getLines stores, per line, the source text from inside the line's indentation to its end preceded only by the <= 3 blanks of a partially consumed tab (GUARDs); list info/markup come from the item's own line; the code span rule is verified against the exact content spec of the statement; whole-content and code-span oracles monitored.", TB + " ''.join and one-character str methods are trusted models.", DED + "; bounded content monitor", "4 C08"),
     "C11": ("proof", "Every Ruler mutator is proved to invalidate the compiled cache on every exit (normal and KeyError) and to have exactly the "
-            "documented set semantics (quantified postconditions over the rule records); first-match lookup proved. By induction over histories RI holds after any sequence of calls.",
+            "documented set semantics (quantified postconditions over the rule records); first-match lookup proved; encapsulation: no parse-path function writes an object that outlives the call, in particular not the chains getRules hands out "
+            "(FRAME obligations, incl. in-place `+=`). By induction over histories RI holds after any sequence of calls.",
             TB + " getRules/__compile__ are proved too (cache == Filter(rules, chain), Seq-valued spec function); the bounded history monitor (all sequences <= 3/4 over 47 ops) covers the comprehension-built getters, reported under coverage.bounded.",
             DED + "; bounded operation-sequence monitor", "3.1, 4 C11"),
     "C12": ("proof", "Frame obligations (region typing) for every heap write site of every function in the package: parse-path functions write only per-call objects and the caller's env; the single instance write is "
-            "Ruler.__cache__; nothing writes module state; no global/setattr/mutable default/mutable class attribute. Hence results are a function of (configuration, src, env).",
+            "Ruler.__cache__; nothing writes module state; no global/setattr/mutable default/mutable class attribute; an augmented assignment on a local that denotes a shared list counts as a write to it; ownership: a field written through elsewhere "
+            "(OptionsDict._options, RendererHTML.rules, Ruler.__rules__) is only ever assigned an object created for the instance (typing.cast is not a copy). Hence results are a function of (configuration, src, env).",
             TB + " The region table of vf/frame.py is trusted; dependencies assumed stateless. A random API-history monitor is the bounded stand-in for the composition step.",
             "frame (modifies) clauses per function discharged by region typing over the real source", "2.3, 4 C12"),
     "C13": ("proof", "Frame: the only instance state written during a parse is Ruler.__cache__. Strong invariant: every store to __cache__ publishes None or a complete local table that is never mutated afterwards "
@@ -43,25 +46,29 @@ CHECKS = {
             "KeyError exits; frame obligations hold at every program point so a raising callback leaves rules/options/renderer table untouched.",
             TB + " The with-body is assumed to use only the public Ruler API. Crash-point monitor as bounded stand-in.", DED + "; frame back end; bounded crash-point monitor", "4 C14"),
     "C05": ("other", MIX + "LANG: no URL accepted by validateLink (its own control structure and regex literals after strip+lower) lies in the dangerous-scheme language (z3 regex solver, witness replayed natively); "
-            "TYPESTATE: at every href/src store site of the six producers and at the writer of env references the value is '' or normalizeLink's result tested by validateLink on that path, or read from env references.",
+            "TYPESTATE: at every href/src store site of the six producers and at the writer of env references the value is '' or normalizeLink's result tested by validateLink on that path, or read from env references; "
+            "the MarkdownIt.normalizeLink/validateLink/normalizeLinkText methods are plain delegations to common.normalize_url (LANG/delegates).",
             TB + " mdurl.encode's output alphabet is an assumed contract on the dependency (monitored on the bounded inputs).", "regular-language inclusion + path-sensitive typestate analysis of the real source; bounded URL monitor", "4 C05"),
     "C10": ("other", MIX + "VOCAB: token types created by each registered rule function (registries read from the source) lie in the rule's declared vocabulary; GUARD: html tokens only under options.html; ROUTE: OptionsDict "
-            "attribute and item access use the same backing key, enable/disable fan out to all four rulers; Ruler mutators (pyvc) have exact set semantics and invalidate the compiled chains.",
+            "attribute and item access use the same backing key, enable/disable fan out to all four rulers; Ruler mutators (pyvc) have exact set semantics and invalidate the compiled chains; READS: no function of markdown_it.main reads an option value "
+            "(options act where they are used, so the three routes cannot be told apart); html_block and html_inline (pyvc) succeed only under a truthy html option.",
             TB + " 'a rule that returns False without effects is a no-op in a dispatch loop' is a composition step.", DED + "; literal/dominance obligations; bounded vocabulary and conservativity monitors", "4 C10"),
     "C16": ("other", MIX + "ENUM: for all 1 112 064 Unicode scalar values equal case folding implies equal normalizeReference (complete enumeration on the real function); GUARD: first definition wins, later ones go to duplicate_refs, "
-            "both with the map of their own lines; the same normalisation is used by definitions and by link/image lookups, which only .get from env; the API passes the caller's env object through.",
+            "both with the map of their own lines; the same normalisation is used by definitions and by link/image lookups, which only .get from env; the API passes the caller's env object through; link and image (pyvc) give up only for a stated reason "
+            "(GUARD at every return: no bracket, no label end, malformed inline form, no definitions, label not defined), so a defined label always resolves; env is written by the reference rule only (FRAME/env-writer); reference line accounting proved.",
             TB + " Lifting single-character case folding to strings is a composition step.", "exhaustive enumeration + dominance obligations on the real source; bounded seeding/form/label monitors", "4 C16"),
     "C18": ("other", MIX + "READS: renderer-only options are read (directly or through direct calls) only by their documented renderer functions and by nothing on the parse side; ORDER: the core inline rule hands exactly "
-            "(content, md, env, children) to ParserInline.parse and StateInline.level starts at 0, so inline parsing does not depend on the block context.", TB, "reads/order obligations on the real source; bounded embedding and option-inertness monitors", "4 C18"),
+            "(content, md, env, children) to ParserInline.parse and StateInline.level starts at 0, so inline parsing does not depend on the block context; FRAME/env-writer: the block phase writes env only when it records a definition.", TB, "reads/order obligations on the real source; bounded embedding and option-inertness monitors", "4 C18"),
     "C19": ("other", MIX + "replace_scoped/replace_rare verified by pyvc: GUARD at every content store (text token, no auto link open; counter invariant), postcondition 'only content of text tokens outside autolinks changes'; "
-            "smartquotes: dominance GUARDs for every content store and stack push; ORDER: text_join runs after the typographic rules.", TB, DED + "; dominance obligations; bounded shape/locality monitor", "4 C19"),
+            "smartquotes: dominance GUARDs for every content store and stack push; ORDER: text_join runs after the typographic rules; escape and entity (pyvc) hand every escaped / referenced character on in a text_special token of its own, never in the pending text.", TB, DED + "; dominance obligations; bounded shape/locality monitor", "4 C19"),
     "C09": ("other", MIX + "The escape rule is verified on all paths (pyvc): it fires only on a backslash, pushes exactly one text_special carrying the escaped ASCII-punctuation character and advances by 2, keeps "
-            "backslash + character otherwise, is pure when silent/failing; ORDER: text_join runs last. The end-to-end statement (7 contexts x 2 encodings) is monitored on the real render.",
-            TB + " entity rule, text_join folding and title unescaping are covered by the bounded templates only.", DED + "; bounded template monitor", "4 C09"),
+            "backslash + character otherwise, is pure when silent/failing; the entity rule is verified with a structural model of its two regular expressions (one text_special per reference, pending text flushed); text_join folds all specials; ORDER: text_join runs last. "
+            "The end-to-end statement (9 contexts x 2 encodings) is monitored on the real render.",
+            TB + " the decoded value of a reference (int() result, entities table) and title unescaping are covered by the bounded templates only.", DED + "; bounded template monitor", "4 C09"),
     "C17": ("other", MIX + "Substitution-lemma side conditions for normalize (regex literals match CR, CRLF-as-one, NUL; replacements clean; chained state.src -> state.src) and ORDER normalize-first: no CR/NUL reaches a later rule. "
             "The tab/column equivalences are monitored (leading tabs, marker tabs on first and continuation lines).", TB + " re.sub substitution lemma assumed.", "regex side-condition obligations (z3) + order obligations; bounded equivalence monitors", "4 C17"),
     "C20": ("other", MIX + "Guards proved (pyvc): rules run only under level < maxNesting in ParserBlock.tokenize, ParserInline.tokenize and skipToken; skipToken strictly advances, memoises every outcome and answers from the memo without "
-            "calling a rule; both tokenizers terminate. The growth claim itself is an amortised resource bound and is decided only by the bounded cost contract (38 families at L, 2L, 4L).",
+            "calling a rule; the memo never forgets or rewrites an entry (postcondition of the generic rule contract, skipToken, tokenize, parseLinkLabel, link, image); both tokenizers terminate. The growth claim itself is an amortised resource bound and is decided only by the bounded cost contract (42 families at L, 2L, 4L).",
             TB + " Known finding: family refdefs is quadratic (recorded in known_findings.json).", DED + "; bounded cost contract (sys.setprofile call counts)", "4 C20"),
     "C15": ("other", MIX + "FRAME obligations: renderer/token/tree functions write only per-call objects (repeatable rendering as a frame fact); dict/tree round trips and render-twice monitored on parser output.", TB, "frame obligations + bounded round-trip monitors", "4 C15"),
 }
